@@ -233,28 +233,46 @@ theorem up_choice_within (s : Style) (x e : K) (l : Int) (h0 : 0 ≤ e) (hl : (l
       constructor <;> linarith
     · constructor <;> linarith
 
+theorem sameVal_iff (a b : K) : sameVal a b = true ↔ a = b := by
+  unfold sameVal
+  constructor
+  · intro h
+    simp only [Bool.and_eq_true, Bool.not_eq_true', decide_eq_false_iff_not] at h
+    exact le_antisymm (not_lt.mp h.2) (not_lt.mp h.1)
+  · intro h; subst h; simp
+
 theorem truncDown_floorOf (s : Style) (tr : K → Int) (x e : K) :
     truncDown s false tr x e =
+      if ((floorOf tr x : Int) : K) = x then floorOf tr x else
       if eqS s (((floorOf tr x + 1 : Int) : Int) : K) x e then floorOf tr x + 1 else floorOf tr x := by
-  simp [truncDown, floorOf]
+  have h : ∀ a : K, (sameVal a x = true) = (a = x) := fun a => propext (sameVal_iff _ _)
+  simp [truncDown, floorOf, h]
 
+/-- closed form of `trunc<downward>`: an integer is returned unchanged; otherwise the integer above if the argument
+    is equal to it within epsilon, else the integer below -/
 theorem truncDown_eq (s : Style) {tr : K → Int} (htr : IsTrunc tr) (x e : K) (l : Int)
     (hl : (l : K) ≤ x) (hu : x < (l : K) + 1) :
-    truncDown s false tr x e = if eqS s ((l : K) + 1) x e then l + 1 else l := by
+    truncDown s false tr x e = if (l : K) = x then l else if eqS s ((l : K) + 1) x e then l + 1 else l := by
   have hb := floorOf_spec htr x
   have hlo : floorOf tr x = l := floor_unique hb.1 hb.2 hl hu
   rw [truncDown_floorOf, hlo]; push_cast; rfl
 
-theorem truncUp_eq (s : Style) {tr : K → Int} (htr : IsTrunc tr) (x e : K) (l : Int)
+theorem truncUp_eq (s : Style) {tr : K → Int} (htr : IsTrunc tr) (x e : K) (l : Int) (h0 : 0 ≤ e)
     (hl : (l : K) ≤ x) (hu : x < (l : K) + 1) :
     truncUp s false tr x e =
+      if (l : K) = x then l else
       if eqS s ((l : K) + 1) x e then l + 1 else if eqS s (l : K) x e then l else l + 1 := by
   unfold truncUp
   rw [truncDown_eq s htr x e l hl hu]
-  by_cases h1 : eqS s ((l : K) + 1) x e = true
-  · simp only [h1, if_true, neS, Gen.ne]; push_cast; simp [h1]
-  · simp only [h1, Bool.false_eq_true, if_false, neS, Gen.ne]
-    cases h2 : eqS s (l : K) x e <;> simp
+  by_cases hi : (l : K) = x
+  · have : eqS s ((l : Int) : K) x e = true := by rw [hi]; exact eqS_refl s x e h0
+    rw [if_pos hi, if_pos hi]
+    simp [neS, Gen.ne, this]
+  · simp only [hi, if_false]
+    by_cases h1 : eqS s ((l : K) + 1) x e = true
+    · simp only [h1, if_true, neS, Gen.ne]; push_cast; simp [h1]
+    · simp only [h1, Bool.false_eq_true, if_false, neS, Gen.ne]
+      cases h2 : eqS s (l : K) x e <;> simp
 
 
 /-- the documented direction in which a tie (within epsilon) between the two neighbouring integers `l`, `l+1`
